@@ -29,13 +29,18 @@ RULE = ("random ADMGs (1-6 nodes, acyclic; isolated and bidirected-only nodes) x
         "Intervention objects, value marks).  A case is non-trivial when the graph has >=3 nodes and a directed edge and "
         "the argument mentions at least one subscript (for component cases: at least two input sets).")
 ASSUMPTIONS = [
-    "value symbols: '-N' and '+N' are read as two DISTINCT values of N (every choice is sampled); an event value None means 'no constraint'",
+    "OPEN simplify_prob / simplify_none_zero (all events): FALSE for the code on events with a self-intervened variable Y_y (open findings simplify-reflexive:prob/none); proved as simplify_prob_partial / simplify_none_zero_partial for every event without a self-intervened variable whose values are values of the variable they are bound to, all compatible functional SCMs, all readings of the value symbols",
+    "OPEN factorisation_den (the factorised sum-product equals P(query)): no theorem; decided by the exact functional-SCM oracle only; FALSE for the code on three syntactic classes of queries (open findings factorisation-value:multi-world / literal-bound / outcome-parent-value); factorisation_shape (D*, ctf-factor forms, grouping by c-components) is proved",
+    "value symbols: '-N' and '+N' are read as two DISTINCT values of N (theorems: for every such reading; oracle: sampled readings); an event value None means 'no constraint'",
     "Def. 2.1 is read without the '\\ X' for the variable itself (the text says An(Y_x) 'includes Y itself'); for Y not in X both readings coincide",
     "Def. 4.2 'not disjoint' is read on graph vertices (two sets containing W_z and W_z' share the vertex W), as in the proof of Lemma A.5 and in y0's docstring",
-    "is_counterfactual_factor_form: Def. 3.4 asks for subscripts equal to pa_W; y0 accepts supersets of pa_W (same random variable); the oracle has no opinion on strict supersets",
+    "is_counterfactual_factor_form: Def. 3.4 asks for subscripts equal to pa_W; y0 accepts supersets of pa_W (the same random variable); theorem factor_form_spec characterises what y0 accepts, the oracle has no opinion on strict supersets",
     "factorised expression: a '-N' subscript whose name is bound by the enclosing Sum denotes the bound value, every other subscript its literal value; a factor variable that is neither bound nor given a value by the returned event is unconstrained",
-    "semantic clauses (same random variable, SIMPLIFY probability, factorisation value) are decided on sampled functional SCMs (binary/ternary variables, one binary latent per bidirected edge, private noise) - sampling, not proof, until the T* theorems are done",
-    "SIMPLIFY's TypeError on events that mix None with self-intervened variables is treated as a documented input rejection (no opinion)",
+    "semantic theorems are over Spec/Fscm.lean (cf family): finitely many independent exogenous variables, deterministic mechanisms, evaluation along a topological order; the oracle samples binary/ternary variables, one binary latent per bidirected edge, private binary noise",
+    "the two merge passes are modelled as 'unions of connected components of the link graph' (the depth-first traversal order, which depends on Python set iteration, is abstracted); the second pass is modelled under the invariant 'input sets are disjoint on graph vertices', proved for the output of the first pass (mergeCommon_base_disjoint)",
+    "Product.safe's ordering of the factors and the order of the returned event are compared as multisets (ordering is property C11's business)",
+    "SIMPLIFY's TypeError on events that mix None with self-intervened variables is treated as a documented input rejection (no opinion); exceptions on names outside the graph are compared by category only",
+    "generated graphs are acyclic ADMGs (the property quantifies over ADMGs); cyclic graphs are not explored",
 ]
 EXHAUSTIVE = {"quick": False, "thorough": False}
 LEANCHECK_MODULES = ["Y0.Model.Ctf", "Y0.Model.CtfSimplify", "Y0.Model.CtfFactor", "Y0.Props.C19"]
@@ -833,22 +838,26 @@ def finding_key(case, res):
 
 
 MANIFEST = {
-    "text": ("Partial proof. Lean theorems about the executable models of ancestor_utils.py / api.py (tied to the code by the "
-             "correspondence check on every run): minimisation is total on graph variables (F8a fixed), well formed, equal to the "
-             "published ||Y_x|| (T = X n An(Y) in G with edges into X removed), idempotent, and - for EVERY functional SCM "
-             "compatible with the graph, every reading of the value symbols, every noise point - the minimised variable is the "
-             "same random variable (minimize_same_rv, induction along the evaluation order); counterfactual ancestors equal "
-             "Def. 2.1 (sound, complete, total); is_counterfactual_factor_form and convert_to_counterfactual_factor_form meet "
-             "Def. 3.4. Clauses WITHOUT a full theorem, decided by correspondence + oracle only: SIMPLIFY preserves probability / "
-             "None only for probability 0, ancestral components = Def. 4.2, shape and value of the ctf-factor factorisation "
-             "(see the OPEN blocks in Props/C19.lean). The oracle evaluates them exactly on sampled functional SCMs and "
-             "reports five open findings (SIMPLIFY rewrites the tautology Y_y=y to Y=y; the factorisation cannot express "
-             "multi-world queries, captures literal subscripts, and mislabels parents that are outcomes with value +P/None)."),
-    "note": ("Trusted: Lean kernel; axioms propext/Classical.choice/Quot.sound; the hand-written models and the specification "
-             "files Spec/CtfSpec.lean and Spec/Fscm.lean (functional SCMs with shared noise, owned by the cf family); the "
-             "correspondence is differential sampling (about 95 000 structured cases per quick run), not proof. Readings fixed "
-             "by the specification: '-N'/'+N' are two distinct values of N; Def. 2.1 without removing Y itself; Def. 4.2 "
-             "'not disjoint' on graph vertices; a '-N' subscript bound by the enclosing Sum denotes the bound value."),
-    "technique": ("Lean 4 theorems (closure = ReflTransGen, induction along the SCM evaluation order) about executable models + "
-                  "differential correspondence with the real functions + set-theoretic and exact functional-SCM oracles"),
+    "text": ("Partial proof. 27 Lean theorems about executable models of ancestor_utils.py / api.py, tied to the code on every run "
+             "by differential correspondence (0 disagreements): minimisation is total on graph variables (F8a fixed), well formed, "
+             "equal to the published ||Y_x||, idempotent, and the SAME RANDOM VARIABLE in every compatible functional SCM, for "
+             "every reading of the value symbols, at every noise point (minimize_same_rv); counterfactual ancestors are exactly "
+             "Def. 2.1 (sound, complete, total); ancestral components are exactly the finest partition of Def. 4.2 (F8b fixed; "
+             "ancestral_components_spec); ctf-factor form / conversion meet Def. 3.4; the factorisation has the shape of "
+             "Eq. 11-15 (factorisation_shape). SIMPLIFY preserves probability and answers None only for probability 0: proved "
+             "for all events WITHOUT a self-intervened variable (simplify_prob_partial, simplify_none_zero_partial); the full "
+             "statement is false for the code (SIMPLIFY rewrites the tautology Y_y=y to Y=y) - open finding, pinned by the "
+             "test-suite. The value clause 'factorised sum-product = P(query)' has NO theorem: it is decided by the exact "
+             "functional-SCM oracle and is false on three syntactic classes of queries (multi-world, captured literal "
+             "subscript, outcome parent with value +P/None) - open findings keyed by class with minimal inputs."),
+    "note": ("Trusted: Lean kernel; axioms propext/Classical.choice/Quot.sound; the hand-written models; the specifications "
+             "Spec/CtfSpec.lean, Spec/CtfSem.lean and Spec/Fscm.lean (functional SCMs with shared noise, owned by the cf "
+             "family); the correspondence is differential sampling (about 58 000 structured cases per quick run), not proof. "
+             "Readings fixed by the specification: '-N'/'+N' are two distinct values of N; Def. 2.1 without removing Y itself; "
+             "Def. 4.2 'not disjoint' on graph vertices; a '-N' subscript bound by the enclosing Sum denotes the bound value. "
+             "Known findings of the semantic clauses are grouped by a syntactic cause computed from the input; a failing input "
+             "outside the listed causes is reported as a VIOLATION."),
+    "technique": ("Lean 4 theorems (closure = ReflTransGen, connected components of link graphs, induction along the SCM "
+                  "evaluation order, dictionary invariants) about executable models + differential correspondence with the "
+                  "real functions + set-theoretic and exact functional-SCM oracles"),
 }
